@@ -30,6 +30,8 @@ type simCheck struct {
 	Params   sim.GenParams
 	// NonTrivial decides the property's non-triviality rule from the stats.
 	NonTrivial func(sim.Stats, *sim.Scenario, *sim.Trace) bool
+	// Remap (optional) may turn a violation kind of another property into one of this property (a fact decides).
+	Remap func(pbt.Violation) (pbt.Violation, bool)
 }
 
 func runSimCheck(t *testing.T, c simCheck) {
@@ -44,6 +46,12 @@ func runSimCheck(t *testing.T, c simCheck) {
 			tr := sim.Run(pbt.T(), &sc)
 			vs, st := sim.Judge(&sc, tr)
 			for _, v := range vs {
+				if c.Remap != nil {
+					if nv, ok := c.Remap(v); ok {
+						res.Add(nv)
+						continue
+					}
+				}
 				if allowed[v.Kind] {
 					res.Add(v)
 				} else {
@@ -92,6 +100,34 @@ func TestC06Sim(t *testing.T) {
 		Params: sim.GenParams{Silences: true, Inhibit: true, Faults: true, Gets: true, GroupLimit: true},
 		NonTrivial: func(st sim.Stats, _ *sim.Scenario, _ *sim.Trace) bool {
 			return st.MultiAlertGroups > 0
+		},
+	})
+}
+
+// C06SimReload: "it contains every non-suppressed alert of that group known at flush time (never a delta)" across a
+// configuration reload: the new dispatcher rebuilds its groups from the provider, which still holds an alert that
+// resolved shortly before the reload; the group's next notification to an integration that was told the alert is firing
+// must carry that resolution. Judged: the C05 resolved obligation, restricted to cases where a notification of the
+// group from a flush after the resolution did reach the integration and left it out.
+func TestC06SimReload(t *testing.T) {
+	runSimCheck(t, simCheck{
+		Property: "C06", Name: "C06SimReload",
+		Rule:   "the scenarios of C05SimReload (whole system in virtual time with config reloads, faults, flapping alerts). Every notification is checked against the routing/grouping model as in C06Sim; in addition a successful notification of a group from a flush that began after one of its alerts resolved must list that resolution when the integration sends resolved alerts, had been told the alert is firing, the alert stayed resolved and unsuppressed and the provider had not collected it (kind delta-notification: the resolved obligation of C05 for which a later notification exists and omits the alert). Non-trivial: a reload happened and >=1 resolved obligation was evaluated.",
+		Params: sim.GenParams{Faults: true, Gets: true, Flap: true, Reload: true},
+		NonTrivial: func(st sim.Stats, sc *sim.Scenario, tr *sim.Trace) bool {
+			for _, s := range sc.Steps {
+				if s.Op == "reload" {
+					return st.ResolvedObligations > 0
+				}
+			}
+			return false
+		},
+		Remap: func(v pbt.Violation) (pbt.Violation, bool) {
+			if v.Kind == "resolved-not-reported" && v.Facts["later_notification_omits_it"] == true {
+				v.Kind = "delta-notification"
+				return v, true
+			}
+			return v, false
 		},
 	})
 }
